@@ -30,6 +30,7 @@ class Cfg:
         self.sugar = True            # disjunctions, patterns
         self.opt_cols = 0.1          # probability that a column is Option<i32>
         self.avoid_f9 = True         # see DESIGN / known findings F9
+        self.p_leading_binder = 0.15 # let / for before the first clause
         self.__dict__.update(kw)
 
 
@@ -192,6 +193,19 @@ def gen_positive_program(rng, cfg=None):
     return Program(rels, rules), input_rels
 
 
+def leading_binder(rng, cfg, fresh):
+    """a let / for / if-let placed before the first clause: later clauses may join on its variable"""
+    v = fresh.new(rng)
+    r = rng.random()
+    if r < 0.4:
+        return [Let(v, K(rng.randrange(cfg.dom)))], [v]
+    if r < 0.7:
+        return [For(v, Range(K(0), K(rng.randrange(1, cfg.dom + 1))))], [v]
+    if r < 0.85:
+        return [For(v, ListE([K(rng.randrange(cfg.dom)) for _ in range(rng.choice([1, 2, 3]))]))], [v]
+    return [IfLet(v, MkOpt(K(rng.random() < 0.8, T.BOOL), K(rng.randrange(cfg.dom))))], [v]
+
+
 def gen_body(rng, cfg, prog_rels, allowed_pos, fresh, bound, nclauses=None, allow_disj=True):
     items = []
     bound = list(bound)
@@ -205,6 +219,10 @@ def gen_body(rng, cfg, prog_rels, allowed_pos, fresh, bound, nclauses=None, allo
         v = fresh.new(rng)
         items.append(For(v, Range(K(0), K(rng.randrange(1, cfg.dom)))))
         bound.append(v)
+    if nclauses > 0 and rng.random() < cfg.p_leading_binder:
+        items_lead, bound_lead = leading_binder(rng, cfg, fresh)
+        items += items_lead
+        bound += bound_lead
     for ci in range(nclauses):
         if allow_disj and cfg.sugar and rng.random() < 0.12 and not (prev_was_first_clause and first_clause_condvars):
             # disjunction: all alternatives bind the same fresh variables
@@ -598,3 +616,101 @@ def gen_pure_program(rng, dom=4, neg=True, consts=True):
             heads.append(Head(h2, [V(rng.choice(bound)) if (rng.random() < 0.8 or not consts) else K(rng.randrange(dom)) for _ in byname[h2].tys]))
         rules.append(Rule(heads, body))
     return Program(rels, rules), input_rels
+
+
+# ------------------------------------------------------------------------------------------------
+# enumerative mode: the space of small rule shapes  [binder]? cl1, cl2  over a fixed vocabulary
+
+
+def rule_shape_space():
+    """all (binder, cl1, cl2) shapes over relations a/2, b/2, h/2 (the recursive head) and c/1, arguments drawn from
+    {x, y, z, w (the binder's variable), the constant 1, _}. Returned as a list of descriptors (deterministic order)."""
+    binders = [None, 'let', 'for']
+    argsyms = ['x', 'y', 'z', 'w', '1', '_']
+    shapes = []
+    for b in binders:
+        syms = [s for s in argsyms if (s != 'w' or b is not None)]
+        for r1 in ('a', 'b', 'h'):
+            for a1 in syms:
+                for a2 in syms:
+                    for r2 in ('a', 'b', 'h', 'c'):
+                        if r2 == 'c':
+                            for c1 in syms:
+                                shapes.append((b, r1, (a1, a2), r2, (c1,)))
+                        else:
+                            for c1 in syms:
+                                for c2 in syms:
+                                    shapes.append((b, r1, (a1, a2), r2, (c1, c2)))
+    return shapes
+
+
+_SHAPES = None
+
+
+def shape_to_rule(shape, dom):
+    b, r1, a1, r2, a2 = shape
+
+    def arg(s):
+        if s == '_':
+            return AWild()
+        if s == '1':
+            return AExpr(K(1 % dom))
+        return AVar(s)
+    body = []
+    bound = []
+    if b == 'let':
+        body.append(Let('w', K(1 % dom)))
+        bound.append('w')
+    elif b == 'for':
+        body.append(For('w', Range(K(0), K(min(2, dom)))))
+        bound.append('w')
+    for (r, args) in ((r1, a1), (r2, a2)):
+        body.append(Clause(r, [arg(s) for s in args]))
+        for s in args:
+            if s not in ('_', '1') and s not in bound:
+                bound.append(s)
+    if not bound:
+        return None
+    hv = [v for v in bound if v != 'w'] + [v for v in bound if v == 'w']
+    p = hv[0]
+    q = hv[1] if len(hv) > 1 else hv[0]
+    return Rule([Head('h', [V(p), V(q)])], body)
+
+
+def enumerated_program(rng, nrules=12, dom=4):
+    """a program made of `nrules` rule shapes sampled without replacement from the shape space (all heads are the recursive
+    relation h, so every shape also occurs with dynamic clauses), plus a seed rule"""
+    global _SHAPES
+    if _SHAPES is None:
+        _SHAPES = rule_shape_space()
+    rels = [Rel('a', [T.I32, T.I32]), Rel('b', [T.I32, T.I32]), Rel('c', [T.I32]), Rel('h', [T.I32, T.I32])]
+    rules = []
+    picked = []
+    while len(rules) < nrules:
+        i = rng.randrange(len(_SHAPES))
+        if i in picked:
+            continue
+        r = shape_to_rule(_SHAPES[i], dom)
+        if r is None:
+            continue
+        picked.append(i)
+        rules.append(r)
+    prog = Program(rels, rules)
+    return prog, ['a', 'b', 'c'], picked
+
+
+def enumerated_input(rng, dom):
+    """size ratios between a, b, h-seeds on both sides of every size-based decision"""
+    sizes = rng.choice([(0, 3, 1), (8, 2, 1), (2, 8, 2), (6, 6, 0), (1, 1, 1), (12, 1, 3), (1, 12, 2), (4, 3, 2)])
+    rows = []
+    for rel, n in zip(('a', 'b'), sizes[:2]):
+        for _ in range(n):
+            rows.append((rel, (rng.randrange(dom), rng.randrange(dom))))
+    for _ in range(sizes[2]):
+        rows.append(('c', (rng.randrange(dom),)))
+    if rng.random() < 0.5:
+        for _ in range(rng.randrange(1, 4)):
+            rows.append(('h', (rng.randrange(dom), rng.randrange(dom))))
+    rows = list(dict.fromkeys(rows))
+    rng.shuffle(rows)
+    return rows
